@@ -226,7 +226,7 @@ def r15(text, args, label):
     (same order).  Optional args: text appended to the call arguments of `self.F(` inside P is not
     needed -- ghost arguments are added by R14 afterwards."""
     m = mask(text)
-    mm = re.search(r'([\w.]+)\s*\.iter\(\)\s*\.filter\(\s*\|\s*&&(\w+)\s*\|', m)
+    mm = re.search(r'([\w.]+)\s*\.\s*iter\(\)\s*\.\s*filter\(\s*\|\s*&&(\w+)\s*\|', m)
     if not mm:
         raise LostAnchor('%s: R15 pattern not found' % label)
     v, x = mm.group(1), mm.group(2)
@@ -237,7 +237,8 @@ def r15(text, args, label):
     if not tail:
         raise LostAnchor('%s: R15 expects .copied().collect() after the filter' % label)
     end = c + 1 + tail.end()
-    new = ('{\n        let mut vf_out: Vec<OpcodeKind> = Vec::new();\n        let mut vf_i: usize = 0;\n'
+    ety = args[0] if args else 'OpcodeKind'
+    new = ('{\n        let mut vf_out: Vec<%s> = Vec::new();\n        let mut vf_i: usize = 0;\n' % ety +
            '        while vf_i < %s.len() {\n            let %s = %s[vf_i];\n            if %s {\n                vf_out.push(%s);\n            }\n'
            '            vf_i += 1;\n        }\n        vf_out\n    }' % (v, x, v, pred, x))
     return text[:mm.start()] + new + text[end:]
